@@ -398,19 +398,19 @@ func (o Otto) MakeCustomError(name, message string) Value {
 // MakeRangeError creates a new RangeError object with the given message,
 // returning it as a Value.
 func (o Otto) MakeRangeError(message string) Value {
-	return o.runtime.toValue(o.runtime.newRangeError(o.runtime.toValue(message)))
+	return o.runtime.toValue(o.runtime.newRangeError(o.runtime.toValue(message), 0))
 }
 
 // MakeSyntaxError creates a new SyntaxError object with the given message,
 // returning it as a Value.
 func (o Otto) MakeSyntaxError(message string) Value {
-	return o.runtime.toValue(o.runtime.newSyntaxError(o.runtime.toValue(message)))
+	return o.runtime.toValue(o.runtime.newSyntaxError(o.runtime.toValue(message), 0))
 }
 
 // MakeTypeError creates a new TypeError object with the given message,
 // returning it as a Value.
 func (o Otto) MakeTypeError(message string) Value {
-	return o.runtime.toValue(o.runtime.newTypeError(o.runtime.toValue(message)))
+	return o.runtime.toValue(o.runtime.newTypeError(o.runtime.toValue(message), 0))
 }
 
 // Context is a structure that contains information about the current execution
